@@ -245,6 +245,13 @@ class Check:
                   wall_s=round(wall, 2), violations=len(s.violations))
         os.makedirs(EVIDENCE_DIR, exist_ok=True)
         json.dump(ev, open(os.path.join(EVIDENCE_DIR, s.pid + ".json"), "w"), indent=1, default=str)
+        if REPLAY:
+            hit = [v for v in s.violations if str(v["key"]) == str(REPLAY["key"])]
+            if hit:
+                print("VIOLATION property=%s replay=%s" % (s.pid, REPLAY["file"])); print("    reproduced on the current tree:", hit[0]["what"][:400]); sys.exit(EXIT_VIOLATION)
+            known = [h for h in s.known_hits if str(h["key"]) == str(REPLAY["key"])]
+            if known: print("KNOWN-FINDING: property=%s %s" % (s.pid, known[0]["what"])); sys.exit(EXIT_OK)
+            print("REPLAY: the recorded violation (key %s) does not occur on the current tree%s" % (REPLAY["key"], "; other violations were found: %s" % [v["key"] for v in s.violations][:3] if s.violations else "")); sys.exit(EXIT_OK if not s.inconclusive else EXIT_INCONCLUSIVE)
         for h in s.known_hits:
             print("KNOWN-FINDING: property=%s %s" % (s.pid, h["what"]))
         print("[%s %s] obligations %d/%d discharged, stretch %d/%d, paths %d, queries %d, solver %.1fs, wall %.1fs" % (
@@ -266,7 +273,16 @@ def parse_args(pid):
     ap.add_argument("--tier", default=os.environ.get("VERIF_TIER", "quick"), choices=["quick", "thorough"])
     ap.add_argument("--replay", default=None)
     ap.add_argument("--only", default=None, help="comma list of sub-harness names (debugging)")
-    return ap.parse_args(sys.argv[1:])
+    a = ap.parse_args(sys.argv[1:])
+    if a.replay:
+        # replay of a recorded counterexample: the check is re-run on the current tree (its encodings are regenerated anyway) and only the recorded
+        # violation key counts; the evidence file of the property is not rewritten by a replay
+        global EVIDENCE_DIR
+        rec = json.load(open(a.replay)); REPLAY["key"] = rec.get("key"); REPLAY["what"] = rec.get("what"); REPLAY["file"] = a.replay
+        EVIDENCE_DIR = scratch("verif_replay_ev_")
+        print("REPLAY of %s\n  recorded: %s\n  key: %s" % (a.replay, str(rec.get("what"))[:300], rec.get("key")))
+    return a
+REPLAY = {}
 
 
 def run_main(main):
